@@ -400,6 +400,15 @@ impl<T> ExactSizeIterator for PinnedPoolIterator<'_, T> {
 
 impl<T> FusedIterator for PinnedPoolIterator<'_, T> {}
 
+#[cfg(folo_verif)]
+impl<T: Send + 'static> PinnedPool<T> {
+    /// Verification hook: read-only internal consistency probe.
+    #[doc(hidden)]
+    pub fn __verif_check(&self) -> Result<(), String> {
+        self.inner.lock().expect(NEVER_POISONED).__verif_check()
+    }
+}
+
 #[cfg(test)]
 #[cfg_attr(coverage_nightly, coverage(off))]
 mod tests {
